@@ -4,6 +4,7 @@ C06 — Valid programs are accepted; every accepted program yields Go that compi
 Property theorems only. Model: M-Gen Naming.lean — the name mapping (`goCase`, `constantName`,
 `MangleType`) and the reservation rule. Proved: the generator's accept/reject rule on a package's
 top-level Go names is exactly clash-freeness; the words `goCase` works on contain no underscore;
+the helper-name mangler is injective on names without underscores other than List/Set/Map;
 witnesses that the name mapping is not injective (so clashing programs exist and must be rejected)
 and that the helper-name mangler collides (findings D15/D24: accepted programs whose Go does not
 compile). What no Lean model can express — that the emitted text is valid Go — is the harness
@@ -12,6 +13,7 @@ tree's runtime, under every CLI option set; acceptance of clash-free well-formed
 checked against the harness's own conservative NoGoClash predicate.
 -/
 import ThriftVerif.Gen.NamingProofs
+import ThriftVerif.Gen.MangleInj
 
 namespace ThriftVerif.Properties.C06
 open ThriftVerif.Gen
@@ -45,6 +47,34 @@ theorem mangle_collision :
       mangle (.map (.list (.named "List".toList)) (.named "A".toList)) ∧
     mangle (.list (.named (goCase "Double".toList))) = mangle (.list (.named (goCase "double".toList))) :=
   ThriftVerif.Gen.mangle_collision
+
+/-- **The helper-name mangler is injective on plain names.** Two container types whose names contain no
+underscore and are none of the words the mangler itself writes (`List`, `Set`, `Map`) get different
+helper names unless they are the same type — whatever their shape and depth (a mangled name is a prefix
+code over its underscore-separated words: `mangle_prefix_free`). So the collisions of findings D15/D24
+(`mangle_collision`) need exactly what this excludes: a user type called `List`, or two Thrift types that
+are given one Go name to begin with. -/
+theorem mangle_injective_on_plain_names (a b : MType) (ha : a.Plain) (hb : b.Plain)
+    (h : mangle a = mangle b) : a = b :=
+  mangle_injective_on_plain a b ha hb h
+
+/-- … and the names the generator makes are plain: `goCase` never yields an underscore
+(`goCase_no_us`), so among types whose names are `goCase`d Thrift names only a type called `List`, `Set` or
+`Map` can make two different container types share a helper name. -/
+theorem mangle_injective_on_generated_names (a b : MType) (ha : a.GoNamed) (hb : b.GoNamed)
+    (h : mangle a = mangle b) : a = b :=
+  mangle_injective_on_go_names a b ha hb h
+
+/-- `goCase` and `constantName` never yield an underscore. -/
+theorem go_names_have_no_underscore (s : Ident) : '_' ∉ goCase s ∧ '_' ∉ constantName s :=
+  ⟨goCase_no_us s, constantName_no_us s⟩
+
+/-- non-vacuity: deep plain types are covered, and the D15 witness is excluded by its name `List` alone -/
+example : (MType.map (.named "Foo".toList) (.list (.set (.named "I64".toList) true))).Plain ∧
+    ¬ (MType.map (.named "List".toList) (.list (.named "A".toList))).Plain := by
+  refine ⟨?_, ?_⟩
+  · simp [MType.Plain, PlainName]
+  · simp [MType.Plain, PlainName]
 
 /-- Non-vacuity: a clash-free name list is accepted, a clashing one (after `goCase`) rejected. -/
 example : (reserveAll [] ["Foo".toList, "Bar".toList]).isSome = true ∧
